@@ -40,6 +40,12 @@ class Bound(Evaluator):
                     return self.by_text[t2]
         return Evaluator.ev(self, e)
 
+    def sub_evaluator(self, g, env, arrays):
+        sub = Bound(self.prog, g, env, self.by_text, bind=self.bind)
+        sub.arrays = dict(arrays or {})
+        sub.depth = self.depth + 1
+        return sub
+
     def ev3(self, e):
         """three-valued truth of a condition: True / False / None (mentions something unbound)"""
         x = e
